@@ -152,8 +152,10 @@ Print Assumptions attr_roundtrip_bounded.
 
 (* whatever mix of literal text, entity references, decimal and hexadecimal
    character references and CDATA sections the writer uses (any number of
-   pieces, any order, leading zeros, either hex case), the content denotes the
-   string the writer meant *)
+   pieces, any order, leading zeros, either hex case), with comments and
+   processing instructions anywhere between the pieces (they denote nothing:
+   piece_value (PComment _) = piece_value (PPI _) = []), the content denotes
+   the string the writer meant *)
 Theorem reply_any_encoding : forall ps,
   pieces_ok 0 ps = true -> xml_chardata_decode (render_pieces ps) = Some (pieces_value ps).
 Proof. exact reply_any_encoding_l. Qed.
@@ -186,8 +188,8 @@ Proof. exact trim_only_nonleaf_l. Qed.
 Print Assumptions trim_only_nonleaf.
 
 Example reply_nonvacuous :
-  let ps := [PLit [97; 93; 93]; PEnt [108; 116]; PDec [48; 49; 51]; PHex [49; 70; 54; 48; 48];
-             PCData [60; 38; 93; 93]; PLit [62]] in
+  let ps := [PLit [97; 93; 93]; PComment [60; 45; 38]; PEnt [108; 116]; PDec [48; 49; 51];
+             PPI [112; 32; 63; 60]; PHex [49; 70; 54; 48; 48]; PCData [60; 38; 93; 93]; PLit [62]] in
   pieces_ok 0 ps = true /\
   pieces_value ps = [97; 93; 93; 60; 13; 128512; 60; 38; 93; 93; 62] /\
   apieces_ok QUOT [PLit [97; 39]; PEnt [113; 117; 111; 116]; PHex [65]] = true.
